@@ -17,6 +17,7 @@
 package cdi
 
 import (
+	"bytes"
 	"encoding/json"
 	"fmt"
 	"os"
@@ -142,6 +143,13 @@ func (s *Spec) write(overwrite bool) error {
 
 	if filepath.Ext(s.path) == ".yaml" {
 		data, err = orderedyaml.Marshal(s.Spec)
+		if err == nil && !readsBack(data, s.Spec) {
+			// the encoder writes some strings (ones which span several
+			// lines and begin with white space) in a way the parser of
+			// Spec files does not read back: use JSON, which is YAML, too
+			data, err = json.Marshal(s.Spec)
+			data = append(escapeUnreadable(data), '\n')
+		}
 		data = append([]byte("---\n"), data...)
 	} else {
 		data, err = json.Marshal(s.Spec)
@@ -257,6 +265,21 @@ func (s *Spec) validate() (map[string]*Device, error) {
 	}
 
 	return devices, nil
+}
+
+// readsBack tells if the parser of Spec files reads the given data back as
+// the given Spec.
+func readsBack(data []byte, spec *cdi.Spec) bool {
+	raw, err := ParseSpec(data)
+	if err != nil || raw == nil {
+		return false
+	}
+	want, err := json.Marshal(spec)
+	if err != nil {
+		return false
+	}
+	got, err := json.Marshal(raw)
+	return err == nil && bytes.Equal(got, want)
 }
 
 // escapeUnreadable replaces the characters which encoding/json writes as
